@@ -38,7 +38,10 @@ pub fn ascii_len(p: &str) -> (r: usize) requires p.is_ascii() ensures r == p@.le
 pub fn shim_to_string(s: &str) -> (r: String) ensures r@ == s@ { s.to_string() }
 //@type base/src/expressions/types.rs ParsedReference
 //@type base/src/expressions/types.rs ParsedRange
+pub uninterp spec fn unicode_alphabetic(c: char) -> bool;
 pub assume_specification [<char>::is_alphanumeric] (c: char) -> (r: bool);
+pub assume_specification [<char>::is_alphabetic] (c: char) -> (r: bool) ensures r == unicode_alphabetic(c);
+pub assume_specification [<char>::is_ascii_alphabetic] (c: &char) -> (r: bool);      // ASCII only: unrelated to unicode_alphabetic
 
 pub assume_specification [<char>::to_ascii_uppercase] (c: &char) -> (r: char);
 pub assume_specification [<char>::is_ascii_digit] (c: &char) -> (r: bool);
@@ -170,6 +173,18 @@ pub fn scan_row_or_column_range(&mut self, position0: usize) -> (r: core::result
     ensures final(self).wf()
 //@rewrite `-> Result<ParsedRange> {` => `-> core::result::Result<ParsedRange, LexerError> {`
 //@end
+/// where an identifier (a function name of any language, a defined name, a sheet name) may START: next_token's test, verbatim, followed by the cursor steps
+/// before consume_identifier.  C23: names of every language — also those beginning with a non-ASCII letter — are read as identifiers, so the test is the
+/// Unicode one (char::is_alphabetic), the same family consume_identifier continues with (is_alphanumeric); and `self.position -= 1` cannot underflow.
+pub fn identifier_start(&mut self, char: char)
+    requires old(self).wf(), old(self).position >= 1          // called right after read_next_char returned `char`
+    ensures final(self).wf(),
+        // the identifier branch is entered (it steps the cursor back onto `char`) exactly for a Unicode letter or '_'
+        final(self).position == (if unicode_alphabetic(char) || char == '_' { old(self).position - 1 } else { old(self).position as int }),
+{
+//@fragment base/src/expressions/lexer/mod.rs Lexer::next_token `if char.is_a` ..< `let name = self.consume_identifier();`
+//@end
+}
 //@fn base/src/expressions/lexer/mod.rs Lexer::consume_absolute_reference
 //@spec
     requires old(self).wf(), old(self).position >= 1        // called by next_token right after read_next_char returned '$'
